@@ -83,7 +83,16 @@ func runC07(c *engine.Ctx) {
 			empty := func(v ssa.Value) bool { s, ok := engine.ConstString(v); return ok && s == "" }
 			c.AllPaths("pkg/util/vhost.HTTPReverseProxy.CheckAuth", engine.PathCheck{Fn: ca, Sink: engine.IsReturn, Pred: func(st *engine.PathState) string {
 				r := st.Sink.(*ssa.Return)
-				res, isC := engine.ConstBool(st.Resolve(r.Results[0]))
+				rv := st.Resolve(r.Results[0])
+				res, isC := engine.ConstBool(rv)
+				// `return a == x && b == y`: the verdict is the last comparison itself; it is true only when that comparison
+				// holds, so treat it as established for the accepting reading of this exit
+				var lastEq *ssa.BinOp
+				if !isC {
+					if bo, ok := rv.(*ssa.BinOp); ok && bo.Op == token.EQL {
+						lastEq, res, isC = bo, true, true
+					}
+				}
 				if !isC {
 					return "CheckAuth returns a non-constant verdict the rule cannot classify"
 				}
@@ -96,7 +105,16 @@ func runC07(c *engine.Ctx) {
 				}
 				eq := func(f *types.Var, m func(ssa.Value) bool) bool {
 					v, k := st.Equal(loadOfField(f), m)
-					return k && v
+					if k && v {
+						return true
+					}
+					if lastEq != nil {
+						x, y := st.Resolve(lastEq.X), st.Resolve(lastEq.Y)
+						if (loadOfField(f)(x) && m(y)) || (loadOfField(f)(y) && m(x)) {
+							return true
+						}
+					}
+					return false
 				}
 				if eq(userF, empty) && eq(passF, empty) {
 					return ""
